@@ -121,6 +121,16 @@ prop("C07", True,
      "consumer-exit rule + dominating-condition extraction on phi edges + guarded reachability + slice-advance provenance over go/ssa",
      "DESIGN.md §2 C07")
 
+prop("C11", True,
+     "Static containment argument by abstract interpretation over string values, for all path strings and directory histories: RootedClean = \"/\" | Clean(p) under IsAbs(p) | Join(<RootedClean>, …) | load of Htfs.cwd "
+     "(inductive field invariant: every store to Htfs.cwd in the program stores a RootedClean value) | merge of such; Contained = Join(f.root, <RootedClean>). Obligations, all discharged: every return of RealPath is Contained; "
+     "each of the 14 path arguments of os/ioutil/filepath file-system calls in the methods of ftp.Fs and filesystem.Htfs is Contained; no other FTP code touches the file system by path; every Driver method's path parameters flow "
+     "only into RealPath; the reported directory is the RootedClean field; Htfs.root is written only by the constructor. This is obligation-complete for lexical containment (proof-like), claimed at level other because the "
+     "path/filepath cleaning axiom and the absence of symlinks are assumed, not proved.",
+     "Axiom: a rooted path cleaned by path/filepath has no `..` element. Symlinks leaving the root are assumed absent (the property's own assumption).",
+     "abstract interpretation (two-point string lattice with an inductive field invariant) + sink enumeration over go/ssa",
+     "DESIGN.md §2 C11")
+
 PENDING = {
  "C01": "check not built yet in this revision (design: DESIGN.md §2 C01)",
 }
